@@ -42,6 +42,10 @@ SAMPLE_EVERY = {"quick": 40000, "thorough": 900000}
 KEYS = [1, 1.0, True]
 
 
+class CacheErr(Exception):
+    pass
+
+
 class Produced:
     __slots__ = ("recv", "arg", "n", "t", "__weakref__")
 
@@ -86,6 +90,13 @@ def programs(tier: str):
         yield {"variant": variant, "limit": 1, "expiration": None, "L": 4, "attrs": True}
         yield {"variant": variant, "limit": 2, "expiration": 2, "L": 4, "attrs": True}
     yield from fix_programs(tier)
+    # the wrapped function FAILS for some arguments: its error reaches the caller, the entries of
+    # the other keys stay where they were (history family and fixpoint searches)
+    for variant in ("sync", "async", "msync"):
+        for limit, expiration in ((1, None), (2, None), (3, None), (2, 2)):
+            if variant == "msync" and limit == 3:
+                continue
+            yield {"variant": variant, "limit": limit, "expiration": expiration, "fix": True, "failing": True, "deadline_s": 1500, "validate": "first" if tier == "quick" else "all"}
     # FINE time scales: expirations far below / off the millisecond grid (1/2048 s, 3/1024 s) and a
     # huge one (2**20 s), clock steps of half / twice the expiration - exact dyadic values
     for variant in ("sync", "async", "msync"):
@@ -187,6 +198,9 @@ class Run:
         run = self
 
         def make(recv, arg):
+            if isinstance(arg, str) and arg.startswith("boom"):
+                run.bad_calls += 1
+                raise CacheErr(arg)  # the wrapped function fails for this argument
             run.counter["n"] += 1
             p = Produced(recv, (type(arg).__name__, arg), run.counter["n"], vtime.now())
             run.produced.append(weakref.ref(p))
@@ -258,6 +272,10 @@ class Run:
         self.seen_vals: set = set()
         self.st = {"hits": 0, "evictions": 0, "expiries": 0, "typed": False, "nested_inv": 0}
         self.nested_ok = True
+        self.bad_calls = 0
+        # keys in order of use, counting calls whose function FAILED as uses too (whether a failed
+        # call "uses" its key is not stated: must-hit is demanded only where both readings agree)
+        self.recency_all: OrderedDict = OrderedDict()
 
     def close(self) -> None:
         if self.loop:
@@ -295,7 +313,7 @@ class Run:
             st["typed"] = True
         self.seen_vals.add((type(k).__name__, k))
         # what the reference knows at the instant of the lookup
-        top = list(recency)[-limit:]
+        top = [k_ for k_ in list(recency)[-limit:] if k_ in list(self.recency_all)[-limit:]]
         known = entry.get(key)
         before = counter["n"]
         nested_before = st["nested_inv"]
@@ -355,6 +373,8 @@ class Run:
             entry[key] = (got.n, got.t)
         recency.pop(key, None)
         recency[key] = None
+        self.recency_all.pop(key, None)
+        self.recency_all[key] = None
         # (3) never more than `limit` entries alive (checked when the outermost call is over)
         got = fresh = None
         if nested:
@@ -374,6 +394,30 @@ class Run:
         if op[0] == "adv":
             vtime.advance(op[1])
             self.last_obs = ("adv",)
+            return True
+        if op[0] == "bad":
+            # a call whose wrapped function raises: the error reaches the caller, nothing else changes
+            _, r, k = op
+            try:
+                got = self.invoke(("call", r, k))
+                self.viols.append(viol("value", "failure-not-raised", "the function's own error", repr(got)[:60], history=self.hist))
+                return False
+            except CacheErr:
+                pass
+            except Exception as exc:  # noqa: BLE001
+                self.viols.append(viol("value", f"failure-replaced/{type(exc).__name__}", "the function's own error", repr(exc)[:80], history=self.hist))
+                return False
+            bkey = ("call", self.recvs[r].name if r is not None else None, "str", k)
+            self.recency_all.pop(bkey, None)
+            self.recency_all[bkey] = None
+            self.last_obs = ("raised",)
+            alive = sum(1 for w in self.produced if w() is not None)
+            if alive > self.limit:
+                gc.collect()
+                alive = sum(1 for w in self.produced if w() is not None)
+            if alive > self.limit:
+                self.viols.append(viol("retention", f"limit={self.limit}", f"<= {self.limit} results alive", alive, history=self.hist))
+                return False
             return True
         return bool(self.do_call(op) and self.nested_ok)
 
@@ -400,6 +444,7 @@ class Run:
 
         e = self.expiration
         ref = (
+            tuple(repr(k) for k in self.recency_all),
             tuple(repr(k) for k in self.recency),
             tuple(
                 (repr(k), None if e is None else repr(min(vtime.now() - t, (e + 1.0) if not self.program.get("fine") else e * 1.5)))
